@@ -448,6 +448,8 @@ def timeTrack (invDelta : Frac) (tempos : List Ev) (invalidLoop : Bool) (lsT leT
                 | .error f => .error f
                 | .ok t =>
                   let td := fadd td t.value
+                  -- a delay cleared by end-silence skipping stays cleared (fix: see known_findings C07)
+                  let td := if p.delay == 0 then 0 else td
                   .ok (some { p with timeDelay := td, time := time }, { st with time := fadd time td, tempo := cur, tci := tci })
           else .ok (prev, st)
     match step1 with
@@ -871,7 +873,7 @@ def tick (s : Seq) (sec gran : Rat) (fuel : Nat) : Seq × List Out × Rat :=
   let s := { s with cur := { s.cur with wait := fsub s.cur.wait sec, absTime := fadd s.cur.absTime sec } }
   let (s, outs, af) := tickLoop gran fuel 10000 s []
   let s := if af == 0 then { s with cur := { s.cur with wait := fadd s.cur.wait 1 } } else s
-  (s, outs, if s.cur.wait < 0 then 0 else s.cur.wait)
+  (s, outs, if s.cur.wait < 0 then 0 else fdiv s.cur.wait s.tempoMult)
 
 def rewind (s : Seq) : Seq :=
   { s with cur := s.beginPos, atEnd := false,
@@ -907,6 +909,6 @@ def seek (s : Seq) (seconds gran : Rat) (fuel : Nat) : Seq × List Out × Rat :=
   let (s, outs) := seekOuter seconds (fmul gran (1 / 2)) 4 fuel s []
   let s := if s.cur.wait < 0 then { s with cur := { s.cur with wait := 0 } } else s
   if s.atEnd then ({ rewind s with loopEnabled := flag }, outs, 0)
-  else ({ s with loopEnabled := flag }, outs, s.cur.wait)
+  else ({ s with loopEnabled := flag }, outs, fdiv s.cur.wait s.tempoMult)
 
 end Opn.Seq
